@@ -204,6 +204,9 @@ pub fn finish(cx: &Ctx, mut t: Tally, fin: Finish) -> i32 {
     cov.set("counters", counters);
     cov.set("known_findings", J::Obj(known_out));
     cov.set("replays", J::Arr(written));
+    // every enumerated case is executed on the real crate (there is no separate model whose
+    // traces would need replaying)
+    cov.set("traces_validated_against_impl", t.evaluations);
     for (k, v) in fin.extra {
         cov.set(&k, v);
     }
